@@ -102,7 +102,7 @@ func c03R8(p *core.Program, r *core.Report) {
 						break
 					}
 					v := core.VarOf(f.Info(), rootE)
-					if v == nil || !(root.Body.Pos() <= v.Pos() && v.Pos() < root.Body.End()) {
+					if v == nil || !core.DeclaredIn(f.Info(), root.Body, v) {
 						local = false
 					}
 				}
